@@ -3,3 +3,4 @@ import Rp2.Props.C06
 #print axioms Rp2.C06.model_lines_are_sums
 #print axioms Rp2.C06.key_uses_event_year
 #print axioms Rp2.C06.to_date_cut_is_filter
+#print axioms Rp2.C06.source_iterator_is_window
